@@ -61,6 +61,13 @@ PROGRAMS = {
                                   'aux.do': 'redo-ifchange src2\necho "aux($(cat src2))" > $3\n', 'src': 'v1\n', 'src2': 'w1\n'},
                            pre=[['redo-ifchange', 'app'], ('edit', 'src2', 'w1b\n')], cmd=['redo-ifchange', 'app'], tops=['app'],
                            oracle=lambda s: {'app': 'p1(%s)\np2(%s)\n' % (s['src'].rstrip('\n'), s['src2'].rstrip('\n')), 'aux': 'aux(%s)\n' % s['src2'].rstrip('\n')}),
+    # redo-always / redo-ifcreate / redo-stamp are redo processes with database writes of their own: crash points inside them too
+    'always-ifcreate': dict(files={'alw.do': 'redo-ifchange src\nredo-always\necho "alw($(cat src))" > $3\n',
+                                   'watch.do': 'redo-ifchange src\nif [ -e maybe ]; then redo-ifchange maybe; else redo-ifcreate maybe; fi\necho "watch($(cat src))$(cat maybe 2>/dev/null)" > $3\n',
+                                   'top.do': 'redo-ifchange alw watch\ncat alw watch > $3\n', 'src': 'v1\n'},
+                            pre=[['redo-ifchange', 'top'], ('edit', 'src', 'v1c\n')], cmd=['redo-ifchange', 'top'], tops=['top'],
+                            oracle=lambda s: {'alw': 'alw(%s)\n' % s['src'].rstrip('\n'), 'watch': 'watch(%s)\n' % s['src'].rstrip('\n'),
+                                              'top': 'alw(%s)\nwatch(%s)\n' % (s['src'].rstrip('\n'), s['src'].rstrip('\n'))}),
     'existing-db-new-target': dict(files={'mid.do': MID, 'top.do': TOP, 'src': 'v1\n', 'other.do': 'echo other > $3\n'}, pre=[['redo-ifchange', 'other']],
                                    cmd=['redo-ifchange', 'top'], tops=['top'],
                                    oracle=lambda s: {'mid': 'mid(%s)\n' % s['src'].rstrip('\n'), 'top': 'top(mid(%s))\n' % s['src'].rstrip('\n')}),
@@ -313,7 +320,7 @@ def dispatch(item):
     return crash_case(item)
 
 
-RULE = ('for each of 11 small programs (first builds and rebuilds of a chain, with and without a checksummed target, scripts writing to stdout, a script that appends to $3 around a nested redo-ifchange, a diamond under a '
+RULE = ('for each of 12 small programs (first builds and rebuilds of a chain, with and without a checksummed target, scripts writing to stdout, a script that appends to $3 around a nested redo-ifchange, scripts calling redo-always and redo-ifcreate, a diamond under a '
         'default rule, a 6-leaf fan at -j3, a build with a failing node, a first target in an existing database) an LD_PRELOAD shim counts the '
         'state-changing libc calls (rename, unlink, create/truncating open, write/pwrite to regular files incl. the SQLite database, WAL and '
         'log files, ftruncate, mkdir) of all redo processes and SIGKILLs the calling process (mode self) or its whole process group (mode group) '
